@@ -15,8 +15,8 @@ field_type('IdManager', 'free_betas', 'ElementsTuple')
 field_type('ElementsTuple', 'names', 'list[str]')
 field_type('ElementsTuple', 'indices', 'dict[str, int]')
 
-contract('biogeme.database.Database.get_sample_size', ['C15', 'C02', 'C04'], verify=False, pure=True, reads=['individualMap', 'data', 'panelColumn'],
-         returns='int', ensures={'t': 'True'})
+contract('biogeme.database.Database.get_sample_size', ['C15', 'C02', 'C04'], verify=False, pure=True,
+         returns='int', ensures={'t': 'True'}, note='assumed: the sample size is a function of the database object (not changed by rebuilding the panel map)')
 contract('biogeme.database.Database.is_panel', ['C15', 'C02', 'C04'], verify=False, pure=True, reads=['panelColumn'], returns='bool', ensures={'t': 'True'})
 contract('biogeme.database.Database.build_panel_map', ['C15', 'C02', 'C04'], verify=False, modifies=['*.individualMap', '*.data', '*.fullIndividualMap'], ensures={'t': 'True'})
 contract(B + '_save_iterations_file_name', ['C15', 'C02', 'C04'], verify=False, pure=True, reads=['modelName'], returns='str', ensures={'t': 'True'},
@@ -24,12 +24,11 @@ contract(B + '_save_iterations_file_name', ['C15', 'C02', 'C04'], verify=False, 
 contract(B + 'report_array', ['C15', 'C02', 'C04'], verify=False, pure=True, returns='str', ensures={'t': 'True'})
 
 ENG = ("app('engine.calculateLikelihoodAndDerivatives', self.theC, x, self.id_manager.fixed_betas_values, "
-       "self.id_manager.free_betas.indices.values(), app('numpy.empty', len(x)), app('numpy.empty', [len(x), len(x)]), "
-       "app('numpy.empty', [len(x), len(x)]), hessian, bhhh)")
+       "self.id_manager.free_betas.indices, hessian, bhhh)")
 F, G, H, BH = f'{ENG}[0]', f'{ENG}[1]', f'{ENG}[2]', f'{ENG}[3]'
 NSS = 'float(self.database.get_sample_size())'
-SAVES = (f"(not app('numpy.isfinite', app('numpy.linalg.norm', {G}))) == False and old(self.save_iterations) and "
-         f"app('numpy.isfinite', {F}) and (old(self.bestIteration) is None or {F} >= typed(old(self.bestIteration), 'float'))")
+SAVES = (f"bool(app('numpy.isfinite', app('numpy.linalg.norm', {G}))) and old(self.save_iterations) and "
+         f"bool(app('numpy.isfinite', {F})) and (old(self.bestIteration) is None or {F} >= typed(old(self.bestIteration), 'float'))")
 
 contract(B + 'calculate_likelihood_and_derivatives', ['C15', 'C02', 'C04'],
          types={'x': 'list[float]', 'scaled': 'bool', 'hessian': 'bool', 'bhhh': 'bool', 'batch': 'float | None'},
